@@ -667,7 +667,7 @@ pub fn random_project(t: &mut Tape, safe: bool, avoided: &mut u64) -> Proj {
         }
     }
     features.insert(format!("mode={}", cfg.mode));
-    let qualify = t.chance(1, 4);
+    let qualify = t.chance(1, 3);
     if qualify {
         features.insert("has=qualified_paths".into());
     }
